@@ -50,6 +50,9 @@ type Call struct {
 	LoadBytes []byte            `json:"load_bytes,omitempty"`
 	// Carry (C06 pieces): input name <- output name of call Ref
 	Carry map[string]string `json:"carry,omitempty"`
+	// CarryAll (feedback): the caller also leaves every tensor of call Ref's result map in the input map, under its
+	// output name (a streaming loop that does `inputs = merge(prevOutputs, newInputs)`).
+	CarryAll bool `json:"carry_all,omitempty"`
 	// Flavour: how the caller builds the tensor object for an input (same for the reference): "" plain,
 	// "lazyT" a lazily transposed tensor (x.T() without Transpose()), "view" a slice of a larger tensor.
 	Flavour map[string]string `json:"flavour,omitempty"`
